@@ -132,6 +132,9 @@ def run_contract_case(I, contract, case, timeout_ms=None, registry=None):
         res["lineno"] = f.node.lineno
         I.under_test = contract.name
         I.inline = set(contract.inline)
+        if hasattr(contract, "local_contracts"):
+            I.contracts = dict(I.contracts)
+            I.contracts.update(contract.local_contracts())
         I.loop_specs = {contract.name: contract.loops} if contract.loops else {}
         seen = {}
         inputs_holder = {}
